@@ -10,6 +10,7 @@ import shutil
 
 from . import bootstrap  # noqa: F401
 from . import instrument as ins
+from . import timebase
 from .core import BudgetExceeded, HarnessError
 
 import numpy as np
@@ -23,32 +24,24 @@ T0 = datetime(2000, 1, 1)
 
 
 def dt(tick):
-    """tick (hours, int or Fraction with denominator dividing 3600) -> datetime"""
+    """tick (int or Fraction with denominator dividing 3600) -> datetime (see sim/timebase.py: an hour by default)"""
     if tick is None:
         return None
-    if isinstance(tick, Fraction):
-        secs = tick * 3600
-        if secs.denominator != 1:
-            raise HarnessError(f"tick {tick} not representable")
-        return T0 + timedelta(seconds=int(secs))
-    return T0 + timedelta(hours=tick)
+    try:
+        return timebase.to_datetime(tick)
+    except ValueError as e:
+        raise HarnessError(str(e))
 
 
 def td(ticks):
-    if isinstance(ticks, Fraction):
-        secs = ticks * 3600
-        return timedelta(seconds=int(secs))
-    return timedelta(hours=ticks)
+    return timebase.to_timedelta(ticks)
 
 
 def tick(t):
-    """datetime -> tick (int if whole hours else Fraction)"""
+    """datetime -> tick (int if whole ticks else Fraction)"""
     if t is None:
         return None
-    secs = int((t - T0).total_seconds())
-    if secs % 3600 == 0:
-        return secs // 3600
-    return Fraction(secs, 3600)
+    return timebase.to_tick(t)
 
 
 def mag(x):
@@ -82,7 +75,9 @@ def make_adapter(spec, alt=False):
             if isinstance(d, int) and d > 0:
                 # the documented alternative to timedelta: a calendar-aware relativedelta (whole hours here)
                 from dateutil.relativedelta import relativedelta
-                return atime.DelayFixed(delay=relativedelta(hours=d))
+                if timebase.is_default():
+                    return atime.DelayFixed(delay=relativedelta(hours=d))
+                return atime.DelayFixed(delay=relativedelta(microseconds=td(d) // timedelta(microseconds=1)))
             return atime.DelayFixed(delay=td(d))
         if k == "delay_pull":
             return atime.DelayToPull(int(spec["n"]), td(spec.get("x", 0)))
@@ -208,6 +203,15 @@ class SimComp(TimeComponent):
               all(self.connector.in_data.get(n) is not None for n in i.get("info_after", ()))}
         pi = {o["name"]: Info(time=self.time, grid=NoGrid(), units=o.get("units", ""))
               for o in s["outputs"] if not o.get("info_at_init", True) and not o.get("static")}
+        if s.get("cache") is not False and hasattr(self.world, "sc") and self.world.sc.get("api", 0) & 4:
+            # "it is sufficient to provide only infos that became newly available": every Info is handed to
+            # try_connect() once, in the first call in which the component knows it (the helper keeps what it could not
+            # exchange or push yet)
+            handed = self.__dict__.setdefault("_handed", set())
+            ex = {k: v for k, v in ex.items() if ("i", k) not in handed}
+            pi = {k: v for k, v in pi.items() if ("o", k) not in handed}
+            handed.update(("i", k) for k in ex)
+            handed.update(("o", k) for k in pi)
         pd = {o["name"]: self.out_value(oi, 0) for oi, o in enumerate(s["outputs"])}
         dep = s.get("init_dep")
         if dep:
@@ -250,13 +254,21 @@ class SimComp(TimeComponent):
 
     def _update(self):
         t = self.time + td(self._step_at(self.k))
+        # (the documented way to advance is the public `time` setter; half of the stubs use it)
+        use_setter = bool(self.world.sc.get("api", 0) & 2) if hasattr(self.world, "sc") else False
         if self.spec.get("push_first"):
-            self._time = t
+            if use_setter:
+                self.time = t
+            else:
+                self._time = t
             self._push_all(t)
             self._pull_all(t)
         else:
             self._pull_all(t)
-            self._time = t
+            if use_setter:
+                self.time = t
+            else:
+                self._time = t
             self._push_all(t)
         self.k += 1
         fin = self.spec.get("finish_at")
